@@ -35,6 +35,11 @@ def gen_config(rng):
     vars_ = []
     for i in range(rng.choice([0, 0, 1, 2])):
         vars_.append({"name": f"v{i}", "default": rng.choice([1, 0.5, True, False, "left", 3]), "prefix": rng.random() < 0.7})
+    # documented API that puts an attribute of the *instance* under the name of a state: a dashboard variable or a
+    # constructor-supplied component called like a state function (the state itself is declared on the class)
+    if vars_ and rng.random() < 0.15:
+        vars_[0]["name"] = rng.choice(names)
+    ctor_comps = [rng.choice(names)] if rng.random() < 0.1 else []
     family = None
     timed_names = [x["name"] for x in states if x["kind"] == "timed"]
     if rng.random() < 0.25:
@@ -45,7 +50,7 @@ def gen_config(rng):
                 over[x["name"]] = {"sig": rng.choice(ALL_SIGS), "next": (rng.choice(names + [None]) if x["kind"] == "timed" else None)}
         family = {"over": over, "run_derived": rng.random() < 0.6, "other_when": rng.choice(["before", "after", "after"])}
     return {"dyadic": dyadic, "states": states, "first": rng.choice(names[:2]), "vars": vars_, "family": family,
-            "mode_name": rng.choice(["Drive Forward", "M", "two_ball"]),
+            "mode_name": rng.choice(["Drive Forward", "M", "two_ball"]), "ctor_comps": ctor_comps,
             "boot_us": (rng.choice([0, 64, 64000]) * GRID_US) if dyadic else rng.choice([0, 33333, 7_000_001])}
 
 
@@ -242,7 +247,8 @@ def execute(plan, trace=False):
     model = SAModel(cfg, exact=exact)
     if fam and fam["other_when"] == "before":
         make_other()
-    inst = Mode()
+    comps_arg = {n: object() for n in cfg.get("ctor_comps", [])} or None
+    inst = Mode(comps_arg) if comps_arg else Mode()
     model.construct()
     if fam and fam["other_when"] == "after":
         make_other()
@@ -278,7 +284,7 @@ def execute(plan, trace=False):
                 elif k == "newinst":
                     if not in_period:
                         model.construct()
-                        inst = Mode()
+                        inst = Mode(comps_arg) if comps_arg else Mode()
                         if fam and fam["other_when"] == "after":
                             make_other()
                         ever = False
